@@ -175,8 +175,8 @@ def outgoing(pid):
 for p in ("C04", "C05", "C06"):
     specs.REGISTRY[p] = outgoing(p)
 
-_TECH = "TLA+ spec Outgoing.tla (fxcore outgoing side + explicit external-chain environment): TLC exhaustive model check + replay of every TLC-generated transition on the real keeper + TLC evaluation of the %s formulas on recorded real behaviours"
-_NOTE = "bounded: 2 users, <=2 transfers, <=2 batches, <=2 bridge calls, 1 deposit, token FX, one honest oracle quorum; external chain simulated from FxBridgeLogic.sol's three rules; trusted: TLC, abstraction function (raw store reads + bank balances), the environment ledger kept by the harness"
+_TECH = "TLA+ specs Outgoing.tla (fxcore outgoing side + explicit external-chain environment), OutgoingBulk.tla (batch size limit), OutgoingTok.tla (two tokens in one module) and, for C06, Attest.tla (observed height): TLC exhaustive model check + replay of every TLC-generated transition on the real keeper + randomized recorders validated by TLC against the trace specifications + TLC evaluation of the %s formulas on recorded real behaviours"
+_NOTE = "bounded: 2 users, <=2 transfers, <=2 batches, <=2 bridge calls, <=2 deposits per family (recorders: 3 users, 5-8 transfers, 3-5 batches), token FX or a module-owned ERC-20 pair (entry by message or precompile), two tokens together in the OutgoingTok family, 2/99/101 transfers at the batch limit, one honest oracle quorum; external chain simulated from FxBridgeLogic.sol's three rules; trusted: TLC, abstraction function (raw store reads + bank balances), the environment ledger kept by the harness"
 specs.MANIFEST.update({
     "C04": dict(category="model_checking", technique=_TECH % "C04", ref="5 (C04-C06)", note=_NOTE,
                 text="Conservation: holdings + pooled/batched transfers + open bridge calls (not yet observed as executed) + parked deposits = initial + observed deposits - withdrawals observed as executed, in every state of every interleaving of send/cancel/increase-fee/request-batch/bridge-call, block progress on both chains, external executions and in-order observation with parked claims; an operation changes only the balance of the account it names; a send within the holder's balance is never refused."),
